@@ -245,6 +245,15 @@ recurseTail:
 			return err
 		}
 		obj = val
+		if !execProc {
+			// Executing a name can run a procedure: this is a new level of
+			// execution nesting, which must be counted like any other.
+			if intp.execStackDepth >= 100 {
+				return intp.e(eExecstackoverflow, "exec stack overflow")
+			}
+			intp.execStackDepth++
+			defer func() { intp.execStackDepth-- }()
+		}
 		execProc = true
 		goto recurseTail
 
